@@ -219,7 +219,7 @@ Definition merge_pair (gs : list group) (i j : nat) : list group :=
   let gj := filter (fun g => negb (has_src i g) && has_src j g) gs in
   match gj with
   | [] => gs
-  | _ => (concat gi ++ concat gj) :: filter (fun g => negb (has_src i g) && negb (negb (has_src i g) && has_src j g)) gs
+  | _ => (concat gi ++ concat gj) :: filter (fun g => negb (has_src i g) && negb (has_src j g)) gs
   end.
 
 Definition src_pos (pred : nat -> src -> pt) (st : lstate) (i : nat) : pt :=
